@@ -240,7 +240,12 @@ CHECKS["C04"] = {
     "design_ref": "DESIGN.md 2/C04",
     "parts": [{"name": "flags", "exe": "c05_coll", "sources": ["c05_coll.cpp"], "sub": "c04", "shards": {"quick": 16, "thorough": 256}},
               {"name": "forward", "exe": "c04_forward", "sources": ["c04_forward.cpp"], "shards": 16},
-              {"name": "activity", "exe": "c04_activity", "sources": ["c04_activity.cpp"], "shards": {"quick": 16, "thorough": 64}}],
+              {"name": "activity", "exe": "c04_activity", "sources": ["c04_activity.cpp"], "shards": {"quick": 16, "thorough": 64}},
+              {"name": "latebind", "exe": "c04_latebind", "sources": ["c04_latebind.cpp"], "shards": {"quick": 16, "thorough": 64}}],
+    "rule_keyed": "latebind part (endpoint level): a TS<int> output and four consumers that join at run time through the plain bind_output - two REF<TS<int>> "
+                  "argument slots (one negotiated reference endpoint) and two TS<int> slots; every sequence of <= 10 (12) operations from {write, next cycle, bind k}; after "
+                  "every operation each bound consumer equals the producer endpoint it is bound to on valid / modified / last-modified-time / value and the TS endpoint "
+                  "equals the write log.",
     "rule": _COLL_RULE + "Oracle (C04), evaluated in every cycle (written or not): modified is true iff the reference performed an effective write in "
             "that cycle (false when nothing was written); valid from the first write until an explicit invalidation; last_modified_time equals the "
             "latest cycle in which modified was true; both passive consumers equal the producer on value, modified, valid, all_valid and "
